@@ -282,7 +282,7 @@ fn run_timeout_s(tier: Tier) -> u64 {
         })
 }
 
-struct Watchdog {
+pub struct Watchdog {
     last: std::sync::Arc<std::sync::atomic::AtomicU64>,
     fired: std::sync::Arc<std::sync::atomic::AtomicBool>,
     stop: std::sync::mpsc::Sender<()>,
@@ -291,7 +291,7 @@ struct Watchdog {
 }
 
 impl Watchdog {
-    fn start(pid: u32, limit_s: u64) -> Watchdog {
+    pub fn start(pid: u32, limit_s: u64) -> Watchdog {
         use std::sync::atomic::{AtomicBool, AtomicU64, Ordering};
         use std::sync::Arc;
         let last = Arc::new(AtomicU64::new(0));
@@ -323,7 +323,7 @@ impl Watchdog {
         self.last.store(self.t0.elapsed().as_secs(), std::sync::atomic::Ordering::SeqCst);
     }
     /// Stops the watchdog; true if it had to kill the process.
-    fn finish(mut self) -> bool {
+    pub fn finish(mut self) -> bool {
         let _ = self.stop.send(());
         if let Some(h) = self.handle.take() {
             let _ = h.join();
